@@ -135,6 +135,34 @@ Fixpoint dk_lookup (tbl : list (Q * Q)) (dk : Q) (t : Q) : Q :=
 Definition k_tab (M : Q -> Q) (evs : list ev) (t : Q) : Q :=
   M t + dk_lookup (dk_scan M (- M 0) evs) (- M 0) t.
 
+(* ---- the loop of calculate_kspace 376-429 as the code writes it (on times instead of grid indices): TWO
+   separate sorted lists t_excitation / t_refocusing (pulses of other uses never enter them), the period
+   starts i_periods = unique([0, *i_excitation, *i_refocusing, last]) (all but the last are loop iterations),
+   one "next" pointer into each list that is advanced with min(len - 1, ii + 1), excitation tested first,
+   refocusing in the elif.  Proofs/KSpaceBridge.v shows that for time-sorted pulses this is k_at. *)
+Definition hd_is (l : list Q) (tp : Q) : bool :=
+  match l with x :: _ => Qeq_bool x tp | [] => false end.   (* ii_next >= 0 and t_list[ii_next] == t_period *)
+Definition adv (l : list Q) : list Q :=
+  match l with
+  | [] => []
+  | [x] => [x]               (* min(len - 1, ii + 1): the pointer stays on the last element *)
+  | _ :: l' => l'
+  end.
+Fixpoint ploop (M : Q -> Q) (periods exc ref : list Q) (dk : Q) : list (Q * Q) :=
+  match periods with
+  | [] => []
+  | tp :: rest =>
+    if hd_is exc tp then let dk' := - M tp in (tp, dk') :: ploop M rest (adv exc) ref dk'
+    else if hd_is ref tp then let dk' := - (2) * M tp - dk in (tp, dk') :: ploop M rest exc (adv ref) dk'
+    else (tp, dk) :: ploop M rest exc ref dk
+  end.
+Definition pulse_times (evs : list ev) : list Q :=
+  map fst (filter (fun e => match snd e with Other => false | _ => true end) evs).
+Definition loop_table (M : Q -> Q) (evs : list ev) : list (Q * Q) :=
+  ploop M (0 :: pulse_times evs) (times_of Exc evs) (times_of Ref evs) (- M 0).
+Definition k_loop (M : Q -> Q) (evs : list ev) (t : Q) : Q :=
+  M t + dk_lookup (loop_table M evs) (- M 0) t.
+
 (* ---- whole pipeline for the correspondence ------------------------------------------------ *)
 Definition wave_or_nil (r : wres) : pwl := match r with WOk w => w | _ => [] end.
 
@@ -149,5 +177,5 @@ Definition kspace_at (raster : Q) (bs : list kblock) (ch : nat) (ts : list Q) : 
   let w := wave_or_nil (waveform raster (map kb bs) ch) in
   let evs := rf_events 0 bs in
   let dk0 := - moment w 0 in
-  let tbl := dk_scan (moment w) dk0 evs in
+  let tbl := loop_table (moment w) evs in
   map (fun t => moment w t + dk_lookup tbl dk0 t) ts.
